@@ -1,0 +1,21 @@
+//go:build verif
+
+package trafficrouting
+
+import (
+	"github.com/openkruise/rollouts/pkg/trafficrouting"
+	"k8s.io/apimachinery/pkg/runtime"
+	"k8s.io/client-go/tools/record"
+	"sigs.k8s.io/controller-runtime/pkg/client"
+)
+
+// VerifNewReconciler builds a TrafficRoutingReconciler over the given client the way
+// SetupWithManager does (verification harness only; events are discarded).
+func VerifNewReconciler(cli client.Client, scheme *runtime.Scheme) *TrafficRoutingReconciler {
+	return &TrafficRoutingReconciler{
+		Client:                cli,
+		Scheme:                scheme,
+		Recorder:              &record.FakeRecorder{},
+		trafficRoutingManager: trafficrouting.NewTrafficRoutingManager(cli),
+	}
+}
